@@ -13,6 +13,25 @@ pub struct S16 {
     /// weights (weighted types) or y values (Covariance); ignored otherwise
     #[serde(with = "fvec")]
     pub ys: Vec<f64>,
+    /// feed the moment-family estimators through Extend in three pieces (1, 2, rest) instead of add
+    #[serde(default)]
+    pub via_extend: bool,
+}
+
+fn feed16<T: Uni>(xs: &[f64], via_extend: bool) -> T {
+    let mut t = T::new();
+    if via_extend && T::HAS_EXTEND {
+        let a = xs.len().min(1);
+        let b = xs.len().min(3);
+        t.extend_val(&xs[..a]);
+        t.extend_ref(&xs[a..b]);
+        t.extend_val(&xs[b..]);
+    } else {
+        for &x in xs {
+            t.add(x);
+        }
+    }
+    t
 }
 
 struct J<'a> {
@@ -47,12 +66,9 @@ impl<'a> J<'a> {
     }
 }
 
-fn moments_block<T: Uni>(name: &str, order: usize, xs: &[f64], constant: bool, o: &mut Obs, cm: impl Fn(&T, usize) -> f64, sm: impl Fn(&T, usize) -> f64, mean: impl Fn(&T) -> f64, sv: impl Fn(&T) -> f64, ssk: impl Fn(&T) -> f64, sek: impl Fn(&T) -> f64) -> TestResult {
+fn moments_block<T: Uni>(name: &str, order: usize, xs: &[f64], constant: bool, via_extend: bool, o: &mut Obs, cm: impl Fn(&T, usize) -> f64, sm: impl Fn(&T, usize) -> f64, mean: impl Fn(&T) -> f64, sv: impl Fn(&T) -> f64, ssk: impl Fn(&T) -> f64, sek: impl Fn(&T) -> f64) -> TestResult {
     let n = xs.len();
-    let mut t = T::new();
-    for &x in xs {
-        t.add(x);
-    }
+    let t: T = feed16(xs, via_extend);
     let mut j = J { o, ty: name, n };
     j.eq("central_moment(0)", cm(&t, 0), 1.0)?;
     j.eq("central_moment(1)", cm(&t, 1), 0.0)?;
@@ -120,7 +136,7 @@ fn run16(c: &S16, o: &mut Obs) -> TestResult {
     let ty = c.ty.as_str();
     match ty {
         "Mean" => {
-            let t: Mean = xs.iter().collect();
+            let t: Mean = if c.via_extend { feed16(xs, true) } else { xs.iter().collect() };
             let mut j = J { o, ty, n };
             j.eq("len", t.len() as f64, n as f64)?;
             if n == 0 {
@@ -133,10 +149,7 @@ fn run16(c: &S16, o: &mut Obs) -> TestResult {
             }
         }
         "Variance" => {
-            let mut t = Variance::new();
-            for &x in xs {
-                Estimate::add(&mut t, x);
-            }
+            let t: Variance = feed16(xs, c.via_extend);
             let mut j = J { o, ty, n };
             if n == 0 {
                 j.nan("mean", t.mean())?;
@@ -164,12 +177,8 @@ fn run16(c: &S16, o: &mut Obs) -> TestResult {
             }
         }
         "Skewness" | "Kurtosis" => {
-            let mut s = Skewness::new();
-            let mut k = Kurtosis::new();
-            for &x in xs {
-                Estimate::add(&mut s, x);
-                Estimate::add(&mut k, x);
-            }
+            let s: Skewness = feed16(xs, c.via_extend);
+            let k: Kurtosis = feed16(xs, c.via_extend);
             let is_k = ty == "Kurtosis";
             let (mean, pv, sv, em, sk) = if is_k { (k.mean(), k.population_variance(), k.sample_variance(), k.error_mean(), k.skewness()) } else { (s.mean(), s.population_variance(), s.sample_variance(), s.error_mean(), s.skewness()) };
             let mut j = J { o, ty, n };
@@ -202,15 +211,15 @@ fn run16(c: &S16, o: &mut Obs) -> TestResult {
                 }
             }
         }
-        "Moments4" => moments_block::<Moments4>(ty, 4, xs, constant, o, |t, p| t.central_moment(p), |t, p| t.standardized_moment(p), |t| t.mean(), |t| t.sample_variance(), |t| t.sample_skewness(), |t| t.sample_excess_kurtosis())?,
-        "M6" => moments_block::<M6>(ty, 6, xs, constant, o, |t, p| t.central_moment(p), |t, p| t.standardized_moment(p), |t| t.mean(), |t| t.sample_variance(), |t| t.sample_skewness(), |t| t.sample_excess_kurtosis())?,
+        "Moments4" => moments_block::<Moments4>(ty, 4, xs, constant, c.via_extend, o, |t, p| t.central_moment(p), |t, p| t.standardized_moment(p), |t| t.mean(), |t| t.sample_variance(), |t| t.sample_skewness(), |t| t.sample_excess_kurtosis())?,
+        "M6" => moments_block::<M6>(ty, 6, xs, constant, c.via_extend, o, |t, p| t.central_moment(p), |t, p| t.standardized_moment(p), |t| t.mean(), |t| t.sample_variance(), |t| t.sample_skewness(), |t| t.sample_excess_kurtosis())?,
         "M10" => {
             // keep |x|^10 representable
             if xs.iter().any(|x| x.abs() > 1e25 || (*x != 0.0 && x.abs() < 1e-25)) {
                 o.discarded = Some("order-10 arithmetic precondition");
                 return Ok(());
             }
-            moments_block::<M10>(ty, 10, xs, constant, o, |t, p| t.central_moment(p), |t, p| t.standardized_moment(p), |t| t.mean(), |t| t.sample_variance(), |t| t.sample_skewness(), |t| t.sample_excess_kurtosis())?
+            moments_block::<M10>(ty, 10, xs, constant, c.via_extend, o, |t, p| t.central_moment(p), |t, p| t.standardized_moment(p), |t| t.mean(), |t| t.sample_variance(), |t| t.sample_skewness(), |t| t.sample_excess_kurtosis())?
         }
         "Min" | "Max" => {
             let mn: Min = xs.iter().collect();
@@ -339,7 +348,7 @@ fn run16(c: &S16, o: &mut Obs) -> TestResult {
         }
     }
     o.nontrivial = true;
-    o.classf(format!("{} n={}{}", ty, if n <= 4 { n.to_string() } else { ">4".into() }, if constant && n >= 2 { " constant" } else { "" }));
+    o.classf(format!("{} n={}{}{}", ty, if n <= 4 { n.to_string() } else { ">4".into() }, if constant && n >= 2 { " constant" } else { "" }, if c.via_extend { " via extend" } else { "" }));
     Ok(())
 }
 
@@ -350,7 +359,7 @@ impl Check for Sentinels {
         "sentinels"
     }
     fn fp(&self, c: &S16, h: &mut Fp) {
-        h.s(&c.ty).fs(&c.xs).fs(&c.ys);
+        h.s(&c.ty).fs(&c.xs).fs(&c.ys).u(c.via_extend as u64);
     }
     fn test(&self, c: &S16, o: &mut Obs) -> TestResult {
         // "does not panic": any panic that is not the documented assertion (handled inside) is a violation
@@ -388,7 +397,7 @@ pub fn cases() -> Vec<S16> {
                         "Covariance" => (0..n).map(|i| match wmode { 0 => -v, 1 => 7.0, _ => 7.0 + i as f64 }).collect(),
                         _ => vec![0.0; n],
                     };
-                    out.push(S16 { ty: ty.to_string(), xs: xs.clone(), ys });
+                    out.push(S16 { ty: ty.to_string(), xs: xs.clone(), ys, via_extend: false });
                     if !matches!(*ty, "WeightedMean" | "WeightedMeanWithError" | "Covariance") {
                         break;
                     }
@@ -402,11 +411,11 @@ pub fn cases() -> Vec<S16> {
                     };
                     if matches!(*ty, "WeightedMean" | "WeightedMeanWithError") {
                         // non-constant observations whose total weight is zero
-                        out.push(S16 { ty: ty.to_string(), xs: xs.clone(), ys: vec![0.0; n] });
+                        out.push(S16 { ty: ty.to_string(), xs: xs.clone(), ys: vec![0.0; n], via_extend: false });
                         // ... and with only the first weight zero
-                        out.push(S16 { ty: ty.to_string(), xs: xs.clone(), ys: (0..n).map(|i| if i == 0 { 0.0 } else { 1.5 }).collect() });
+                        out.push(S16 { ty: ty.to_string(), xs: xs.clone(), ys: (0..n).map(|i| if i == 0 { 0.0 } else { 1.5 }).collect(), via_extend: false });
                     }
-                    out.push(S16 { ty: ty.to_string(), xs, ys });
+                    out.push(S16 { ty: ty.to_string(), xs, ys, via_extend: false });
                 }
             }
             if out.len() % 7 == 0 || v == 0.0 || v.abs() == 1e30 || v.abs() == 1e-30 || v == 0.1 {
@@ -415,7 +424,8 @@ pub fn cases() -> Vec<S16> {
                         "Covariance" => vec![-v; n],
                         _ => vec![1.5; n],
                     };
-                    out.push(S16 { ty: ty.to_string(), xs: vec![v; n], ys });
+                    out.push(S16 { ty: ty.to_string(), xs: vec![v; n], ys: ys.clone(), via_extend: false });
+                    out.push(S16 { ty: ty.to_string(), xs: vec![v; n], ys, via_extend: true });
                 }
             }
         }
@@ -441,7 +451,7 @@ pub fn run(cx: &Ctx) {
             };
             // every third case: non-constant observations (relevant for the zero-total-weight sentinels)
             let xs: Vec<f64> = if n >= 2 && (n + t) % 3 == 0 { (0..n).map(|i| v + (i as f64) * (v.abs() * 0.25).max(1.0)).collect() } else { vec![v; n] };
-            S16 { ty: ty.to_string(), xs, ys }
+            S16 { ty: ty.to_string(), xs, ys, via_extend: (n + t) % 2 == 0 }
         })
     };
     cx.run_pt(&Sentinels, cx.by(5000, 50000), cx.workers, strat, "random C01 values, n in 0..=4 or a constant stream of length 5..3000");
